@@ -192,9 +192,12 @@ def judge_single(ctx, info: DocInfo, raw: bytes, step: Step, pkt, out: ref.Outco
 
 
 def is_length_warning(w):
-    """the generator's 'bits parsed did not match' warning: a UserWarning raised from definitions.py
-    (matched by origin module, not by text)"""
-    return issubclass(w.category, UserWarning) and str(getattr(w, "filename", "")).endswith("definitions.py")
+    """the generator's 'bits parsed did not match' warning, matched by origin, not by text: a UserWarning raised from a
+    file of the space_packet_parser package other than comparisons.py (whose only parse-time warning is the
+    self-referencing-criteria note). The workloads that use this predicate never enable segment combining, so no other
+    parse-time warning of the package can occur."""
+    fn = str(getattr(w, "filename", "")).replace("\\", "/")
+    return issubclass(w.category, UserWarning) and "/space_packet_parser/" in fn and not fn.endswith("comparisons.py")
 
 
 def stream_expectation(outcomes, parse_bad_pkts=True, yield_unrecognized=False):
